@@ -580,4 +580,112 @@ theorem spec_parseTypeSystemDefinition (n : Nat) (desc : Bytes) :
     | exact ⟨u, (Ate.peeked a).trans h, p⟩
     | exact hf.elim
 
+/-! ### type extensions: the same bodies plus "must extend something" -/
+
+theorem spec_parseScalarTypeExtension (n : Nat) :
+    Spec (parseScalarTypeExtension n) (Eats fun d u => BodyOf d u ∧ d.desc = [] ∧ ExtendsSomething d) := by
+  unfold parseScalarTypeExtension
+  refine (Spec.bind (spec_expectKeyword kwScalar) fun _ => Spec.bind spec_peekPos fun pos =>
+    Spec.bind spec_parseName' fun name => Spec.bind (spec_parseDirectives n true) fun dirs =>
+    Spec.ite (fun _ => Spec.of_dead_bind (R := fun _ _ _ => False) unexpectedError_dead) (fun _ => Spec.pure _)).mono ?_
+  rintro d a a'' _ ⟨tkw, a1, ⟨u0, h0, rfl, k0, v0⟩, pos, a2, ⟨rfl, hpos⟩, name, a3, ⟨u1, h1, tnm, rfl, k1, rfl, _⟩,
+    dirs, a5, ⟨u3, h3, p3⟩, ⟨_, hf⟩ | ⟨hc, rfl, rfl⟩⟩
+  · exact hf.elim
+  · refine ⟨_, h0.trans ((Ate.peeked a1).trans (h1.trans (h3))),
+      ⟨[], [], ?_, p3.2 rfl, ⟨tnm, by simp, ?_⟩, ?_⟩, rfl, ?_⟩
+    · simp [kwTok k0 v0, ofToken_name k1, p3.1, DefKind.keyword]
+    · rw [hpos]; exact congrArg Token.start h1.head
+    · exact ⟨rfl, rfl⟩
+    · simp only [ExtendsSomething]; intro e; exact hc (by simp [e])
+
+theorem spec_parseObjectTypeExtension (n : Nat) :
+    Spec (parseObjectTypeExtension n) (Eats fun d u => BodyOf d u ∧ d.desc = [] ∧ ExtendsSomething d) := by
+  unfold parseObjectTypeExtension
+  refine (Spec.bind (spec_expectKeyword kwType) fun _ => Spec.bind spec_peekPos fun pos =>
+    Spec.bind spec_parseName' fun name => Spec.bind (spec_parseImplementsInterfaces n) fun ifs =>
+    Spec.bind (spec_parseDirectives n true) fun dirs => Spec.bind (spec_parseFieldsDefinition n) fun fields =>
+    Spec.ite (fun _ => Spec.of_dead_bind (R := fun _ _ _ => False) unexpectedError_dead) (fun _ => Spec.pure _)).mono ?_
+  rintro d a a'' _ ⟨tkw, a1, ⟨u0, h0, rfl, k0, v0⟩, pos, a2, ⟨rfl, hpos⟩, name, a3, ⟨u1, h1, tnm, rfl, k1, rfl, _⟩,
+    ifs, a4, ⟨u2, h2, p2⟩, dirs, a5, ⟨u3, h3, p3⟩, fields, a6, ⟨u4, h4, p4⟩, ⟨_, hf⟩ | ⟨hc, rfl, rfl⟩⟩
+  · exact hf.elim
+  · refine ⟨_, h0.trans ((Ate.peeked a1).trans (h1.trans (h2.trans (h3.trans h4)))),
+      ⟨tk u2, tk u4, ?_, p3.2 rfl, ⟨tnm, by simp, ?_⟩, ?_⟩, rfl, ?_⟩
+    · simp [kwTok k0 v0, ofToken_name k1, p3.1, DefKind.keyword]
+    · rw [hpos]; exact congrArg Token.start h1.head
+    · exact ⟨p2, p4.1, p4.2⟩
+    · simp only [ExtendsSomething]
+      cases ifs <;> cases dirs <;> cases fields <;> simp_all
+
+theorem spec_parseInterfaceTypeExtension (n : Nat) :
+    Spec (parseInterfaceTypeExtension n) (Eats fun d u => BodyOf d u ∧ d.desc = [] ∧ ExtendsSomething d) := by
+  unfold parseInterfaceTypeExtension
+  refine (Spec.bind (spec_expectKeyword kwInterface) fun _ => Spec.bind spec_peekPos fun pos =>
+    Spec.bind spec_parseName' fun name => Spec.bind (spec_parseImplementsInterfaces n) fun ifs =>
+    Spec.bind (spec_parseDirectives n true) fun dirs => Spec.bind (spec_parseFieldsDefinition n) fun fields =>
+    Spec.ite (fun _ => Spec.of_dead_bind (R := fun _ _ _ => False) unexpectedError_dead) (fun _ => Spec.pure _)).mono ?_
+  rintro d a a'' _ ⟨tkw, a1, ⟨u0, h0, rfl, k0, v0⟩, pos, a2, ⟨rfl, hpos⟩, name, a3, ⟨u1, h1, tnm, rfl, k1, rfl, _⟩,
+    ifs, a4, ⟨u2, h2, p2⟩, dirs, a5, ⟨u3, h3, p3⟩, fields, a6, ⟨u4, h4, p4⟩, ⟨_, hf⟩ | ⟨hc, rfl, rfl⟩⟩
+  · exact hf.elim
+  · refine ⟨_, h0.trans ((Ate.peeked a1).trans (h1.trans (h2.trans (h3.trans h4)))),
+      ⟨tk u2, tk u4, ?_, p3.2 rfl, ⟨tnm, by simp, ?_⟩, ?_⟩, rfl, ?_⟩
+    · simp [kwTok k0 v0, ofToken_name k1, p3.1, DefKind.keyword]
+    · rw [hpos]; exact congrArg Token.start h1.head
+    · exact ⟨p2, p4.1, p4.2⟩
+    · simp only [ExtendsSomething]
+      cases ifs <;> cases dirs <;> cases fields <;> simp_all
+
+theorem spec_parseUnionTypeExtension (n : Nat) :
+    Spec (parseUnionTypeExtension n) (Eats fun d u => BodyOf d u ∧ d.desc = [] ∧ ExtendsSomething d) := by
+  unfold parseUnionTypeExtension
+  refine (Spec.bind (spec_expectKeyword kwUnion) fun _ => Spec.bind spec_peekPos fun pos =>
+    Spec.bind spec_parseName' fun name => Spec.bind (spec_parseDirectives n true) fun dirs =>
+    Spec.bind (spec_parseUnionMemberTypes n) fun types =>
+    Spec.ite (fun _ => Spec.of_dead_bind (R := fun _ _ _ => False) unexpectedError_dead) (fun _ => Spec.pure _)).mono ?_
+  rintro d a a'' _ ⟨tkw, a1, ⟨u0, h0, rfl, k0, v0⟩, pos, a2, ⟨rfl, hpos⟩, name, a3, ⟨u1, h1, tnm, rfl, k1, rfl, _⟩,
+    dirs, a5, ⟨u3, h3, p3⟩, types, a6, ⟨u4, h4, p4⟩, ⟨_, hf⟩ | ⟨hc, rfl, rfl⟩⟩
+  · exact hf.elim
+  · refine ⟨_, h0.trans ((Ate.peeked a1).trans (h1.trans (h3.trans h4))),
+      ⟨[], tk u4, ?_, p3.2 rfl, ⟨tnm, by simp, ?_⟩, ?_⟩, rfl, ?_⟩
+    · simp [kwTok k0 v0, ofToken_name k1, p3.1, DefKind.keyword]
+    · rw [hpos]; exact congrArg Token.start h1.head
+    · exact ⟨rfl, p4⟩
+    · simp only [ExtendsSomething]
+      cases dirs <;> cases types <;> simp_all
+
+theorem spec_parseEnumTypeExtension (n : Nat) :
+    Spec (parseEnumTypeExtension n) (Eats fun d u => BodyOf d u ∧ d.desc = [] ∧ ExtendsSomething d) := by
+  unfold parseEnumTypeExtension
+  refine (Spec.bind (spec_expectKeyword kwEnum) fun _ => Spec.bind spec_peekPos fun pos =>
+    Spec.bind spec_parseName' fun name => Spec.bind (spec_parseDirectives n true) fun dirs =>
+    Spec.bind (spec_parseEnumValuesDefinition n) fun evs =>
+    Spec.ite (fun _ => Spec.of_dead_bind (R := fun _ _ _ => False) unexpectedError_dead) (fun _ => Spec.pure _)).mono ?_
+  rintro d a a'' _ ⟨tkw, a1, ⟨u0, h0, rfl, k0, v0⟩, pos, a2, ⟨rfl, hpos⟩, name, a3, ⟨u1, h1, tnm, rfl, k1, rfl, _⟩,
+    dirs, a5, ⟨u3, h3, p3⟩, evs, a6, ⟨u4, h4, p4⟩, ⟨_, hf⟩ | ⟨hc, rfl, rfl⟩⟩
+  · exact hf.elim
+  · refine ⟨_, h0.trans ((Ate.peeked a1).trans (h1.trans (h3.trans h4))),
+      ⟨[], tk u4, ?_, p3.2 rfl, ⟨tnm, by simp, ?_⟩, ?_⟩, rfl, ?_⟩
+    · simp [kwTok k0 v0, ofToken_name k1, p3.1, DefKind.keyword]
+    · rw [hpos]; exact congrArg Token.start h1.head
+    · exact ⟨rfl, p4.1, fun h => by rw [p4.2.1 h]; rfl, p4.2.2⟩
+    · simp only [ExtendsSomething]
+      cases dirs <;> cases evs <;> simp_all
+
+theorem spec_parseInputObjectTypeExtension (n : Nat) :
+    Spec (parseInputObjectTypeExtension n) (Eats fun d u => BodyOf d u ∧ d.desc = [] ∧ ExtendsSomething d) := by
+  unfold parseInputObjectTypeExtension
+  refine (Spec.bind (spec_expectKeyword kwInput) fun _ => Spec.bind spec_peekPos fun pos =>
+    Spec.bind spec_parseName' fun name => Spec.bind (spec_parseDirectives n true) fun dirs =>
+    Spec.bind (spec_parseInputFieldsDefinition n) fun fields =>
+    Spec.ite (fun _ => Spec.of_dead_bind (R := fun _ _ _ => False) unexpectedError_dead) (fun _ => Spec.pure _)).mono ?_
+  rintro d a a'' _ ⟨tkw, a1, ⟨u0, h0, rfl, k0, v0⟩, pos, a2, ⟨rfl, hpos⟩, name, a3, ⟨u1, h1, tnm, rfl, k1, rfl, _⟩,
+    dirs, a5, ⟨u3, h3, p3⟩, fields, a6, ⟨u4, h4, p4⟩, ⟨_, hf⟩ | ⟨hc, rfl, rfl⟩⟩
+  · exact hf.elim
+  · refine ⟨_, h0.trans ((Ate.peeked a1).trans (h1.trans (h3.trans h4))),
+      ⟨[], tk u4, ?_, p3.2 rfl, ⟨tnm, by simp, ?_⟩, ?_⟩, rfl, ?_⟩
+    · simp [kwTok k0 v0, ofToken_name k1, p3.1, DefKind.keyword]
+    · rw [hpos]; exact congrArg Token.start h1.head
+    · exact ⟨rfl, p4.1, p4.2⟩
+    · simp only [ExtendsSomething]
+      cases dirs <;> cases fields <;> simp_all
+
 end Gql.Parser
